@@ -86,6 +86,7 @@ def validate(number):
     This performs the country-specific check for the number.
     """
     number = clean(number, '').strip()
+    number = number[:2] + number[2:].strip()
     module = _get_cc_module(number[:2])
     try:
         return number[:2].upper() + module.validate(number[2:])
